@@ -8,6 +8,9 @@ ops (ints reduced modulo the candidates):
   ['read', o, attr, reg]           reg := obj.attr
   ['write', o, attr, reg, const]   obj.attr = (reg + const) % 100 when reg was read from the same object, else const % 100
   ['flush']
+  ['commit']                       commit() in the middle of the db_session (ends the transaction, the session cache goes on)
+  ['restart']                      leave db_session (commit) and enter a new one on the same Database
+A register is only usable in the transaction in which it was read.
 Every executed op reports its *effective* form, from which `serial_results` (a tiny reference interpreter) computes what any
 serial execution of the committed sessions would have left in the database.
 """
@@ -84,6 +87,26 @@ def make_exec(case):
         if name == 'flush':
             flush()
             return rec
+        if name in ('commit', 'restart'):
+            # the transaction ends here: its locks are released, and values read in it may not be carried into the next one
+            if name == 'commit':                 # commit in the middle of the db_session; the session cache goes on
+                from pony.orm import commit
+                commit()
+            else:                                # leave db_session (commit) and enter a new one on the same Database
+                from pony.orm import db_session
+                opts = st.spec.get('session', {})
+                try:
+                    st.session.__exit__()
+                except Exception:
+                    st.session = db_session(**opts)     # the failed session is over; give the generic failure path one to close
+                    st.session.__enter__()
+                    raise
+                st.objs.clear()
+                st.session = db_session(**opts)
+                st.session.__enter__()
+            for r in regs:
+                r[1] = None
+            return rec
         pk = 1 + op[1] % nrows
         if name == 'lock':
             how = LOCK_HOWS[op[2] % len(LOCK_HOWS)]
@@ -139,10 +162,32 @@ def make_exec(case):
     return exec_op
 
 
-def serial_results(initial, programs):
-    """all final states reachable by running the effective programs one after another in some order"""
+def _orders(owners):
+    """all orders of the transactions 0..len(owners)-1 in which the transactions of one actor keep their own order"""
+    n = len(owners)
     out = []
-    for perm in itertools.permutations(range(len(programs))):
+
+    def rec(prefix, used):
+        if len(prefix) == n:
+            out.append(tuple(prefix))
+            return
+        seen = set()
+        for k in range(n):
+            if k in used or owners[k] in seen:
+                continue
+            seen.add(owners[k])           # only the first unused transaction of each actor may come next
+            rec(prefix + [k], used | {k})
+    rec([], frozenset())
+    return out
+
+
+def serial_results(initial, programs, owners=None):
+    """all final states reachable by running the committed transactions (effective programs) one after another in some
+    order (transactions of the same actor in their own order); registers start empty in every transaction"""
+    if owners is None:
+        owners = list(range(len(programs)))
+    out = []
+    for perm in _orders(owners):
         state = {pk: dict(row) for pk, row in initial.items()}
         for i in perm:
             regs = [0] * NREGS
@@ -200,12 +245,20 @@ def judge(case, events, states, initial, deadlock=None):
     if deadlock is not None:
         fail('deadlock: %s (a session stays blocked although every other session has finished or is blocked too)' % deadlock)
         return v
-    protected = [dict() for _ in range(n)]     # pk -> step from which the row is protected by session i
-    programs = [[] for _ in range(n)]
+    protected = [dict() for _ in range(n)]     # pk -> step from which the row is protected by the CURRENT transaction of i
+    windows = []                               # closed protection windows (actor, pk, since, until)
+    current = [[] for _ in range(n)]           # effects of the current (uncommitted) transaction of actor i
     first = [None] * n
     end = [None] * n
     wrote = [dict() for _ in range(n)]         # pk -> steps of write ops
-    committed = []
+    txs = []                                   # committed transactions in commit order: (actor, commit step, effects)
+
+    def close_tx(i, step):
+        for pk, since in protected[i].items():
+            windows.append((i, pk, since, step))
+        protected[i] = {}
+        current[i] = []
+
     for ev in events:
         i = ev['actor']
         spec = case['actors'][i]
@@ -217,25 +270,26 @@ def judge(case, events, states, initial, deadlock=None):
             v.classes.add('waited')
             continue
         opname = 'end' if is_end else spec['ops'][ev['op']][0]
-        # (1) rows protected by another session must not change under it
+        commit_step = (is_end and spec.get('end', 'commit') == 'commit') or opname in ('commit', 'restart')
+        # (1) rows protected by another session's open transaction must not change under it
         if ev['before'] != ev['after']:
             for j in range(n):
-                if j == i or end[j] is not None:
+                if j == i:
                     continue
                 for pk, since in protected[j].items():
                     if ev['before'].get(pk) != ev['after'].get(pk):
                         fail('E[%d] was %s by session %d since step #%d, yet step #%d of session %d changed the committed row from '
-                             '%r to %r before session %d ended'
+                             '%r to %r before that transaction of session %d ended'
                              % (pk, 'read in a serializable session' if case['actors'][j].get('session', {}).get('serializable')
                                 else 'locked for update', j, since, ev['step'], i, ev['before'].get(pk), ev['after'].get(pk), j))
-            ok_commit = is_end and ev['outcome'] == 'ok' and spec.get('end', 'commit') == 'commit'
-            if not ok_commit:
+            if not (commit_step and ev['outcome'] == 'ok'):
                 fail('step #%d of session %d (%s, outcome %s) changed the committed database although the session did not commit'
                      % (ev['step'], i, opname, ev['outcome']))
         if ev['outcome'] == 'raised':
             e = ev['error']
             en = type(e).__name__
             end[i] = ev['step']
+            close_tx(i, ev['step'])
             if sched.is_lock_error(e):
                 v.classes.add('lock_error')
             elif en in ('OptimisticCheckError', 'UnrepeatableReadError'):
@@ -244,20 +298,24 @@ def judge(case, events, states, initial, deadlock=None):
                 if opname == 'lock':
                     fail('the locking lookup %r of session %d raised %s(%s) from inside Pony: the rows were neither locked nor '
                          'was a lock conflict reported' % (spec['ops'][ev['op']], i, en, str(e)[:200]))
-                elif opname == 'end' and en == 'RuntimeError' and 'release unlocked lock' in str(e):
-                    fail('session %d: ending the session released a provider lock it did not hold (%s)' % (i, e))
+                elif commit_step and en == 'RuntimeError' and 'release unlocked lock' in str(e):
+                    fail('session %d: ending the transaction released a provider lock it did not hold (%s)' % (i, e))
                 else:
                     v.classes.add('internal_error:' + en)
             else:
                 v.classes.add('fail:' + en)
             continue
+        if commit_step:
+            txs.append((i, ev['step'], current[i]))
+            if not is_end:
+                v.classes.add('mid_commit' if opname == 'commit' else 'restart')
         if is_end:
             end[i] = ev['step']
-            if spec.get('end', 'commit') == 'commit':
-                committed.append(i)
+        if is_end or commit_step:
+            close_tx(i, ev['step'])
             continue
         rec = ev['value']
-        programs[i].extend(rec['eff'])
+        current[i].extend(rec['eff'])
         for pk in rec['locked']:
             protected[i].setdefault(pk, ev['step'])
             v.classes.add('for_update')
@@ -268,24 +326,27 @@ def judge(case, events, states, initial, deadlock=None):
         for e in rec['eff']:
             if e[0] == 'w':
                 wrote[i].setdefault(e[1], []).append(ev['step'])
-    # (2) no committed write is lost: the final database is the result of some serial order of the committed sessions
+    for i in range(n):
+        close_tx(i, events[-1]['step'] if events else 0)
+    # (2) no committed write is lost: the final database is the result of some serial order of the committed transactions
     final = events[-1]['after'] if events else initial
-    results = serial_results(initial, [programs[i] for i in committed])
+    owners = [t[0] for t in txs]
+    results = serial_results(initial, [t[2] for t in txs], owners)
     if not any(state == final for perm, state in results):
-        fail('the final database %r is not the result of any serial order of the committed sessions %r (serial results: %s); '
+        fail('the final database %r is not the result of any serial order of the committed transactions %r (serial results: %s); '
              'a committed write was lost or overwritten from a stale read'
-             % (final, committed, '; '.join('%s -> %r' % ([committed[k] for k in perm], state) for perm, state in results[:6])))
-    if len(committed) >= 2:
+             % (final, ['a%d@#%d' % (t[0], t[1]) for t in txs],
+                '; '.join('%s -> %r' % (['a%d@#%d' % (txs[k][0], txs[k][1]) for k in perm], state) for perm, state in results[:6])))
+    if len(set(owners)) >= 2:
         v.classes.add('two_committed')
-    # non-trivial: a row was protected by one session while another session that writes it was alive
-    for j in range(n):
-        for pk, since in protected[j].items():
-            for i in range(n):
-                if i == j or first[i] is None:
-                    continue
-                if pk in wrote[i] and end[j] is not None and first[i] < end[j] and (end[i] is None or end[i] > since):
-                    v.nontrivial = True
-                    v.classes.add('contended')
+    # non-trivial: a row was protected by a transaction of one session while another session that writes it was alive
+    for (j, pk, since, until) in windows:
+        for i in range(n):
+            if i == j or first[i] is None:
+                continue
+            if pk in wrote[i] and first[i] < until and (end[i] is None or end[i] > since):
+                v.nontrivial = True
+                v.classes.add('contended')
     return v
 
 
